@@ -331,6 +331,30 @@ def run(check):
         r_r.violate('re-injection before removal', dd, gen[0].ast, 'queued datapoints are re-injected while the dead destination '
                     'is still in the router: they are routed straight back into the queue that is about to be cleared')
 
+  du = fac.methods.get('destinationUp')
+  if du is not None:
+    g = cx.cfg(du)
+    adds = nodes_calling(g, lambda k: isinstance(k.func, ast.Attribute) and k.func.attr == 'addDestination')
+    res = nodes_calling(g, lambda k: (dotted(k.func) or '').endswith('resumeReceivingMetrics'))
+    for r_ in res:
+      if adds and r_ not in g.reach([g.entry], removed_nodes=set(adds), normal_only=True):
+        r_r.ok('destinationUp: the destination is back in the router before buffered datapoints are re-injected', du.loc(r_.ast))
+      else:
+        r_r.violate('re-injection before the destination is routable', du, r_.ast, 'resumeReceivingMetrics (whose handler re-injects the '
+                    'datapoints buffered while no destination was usable) is fired before router.addDestination(): the re-injected '
+                    'datapoints find no destination, land in the same buffer and are wiped by its clear()')
+  ff = repo.module('carbon.client').classes.get('FakeClientFactory')
+  if ff:
+    rj = ff[0].methods.get('reinjectDatapoints')
+    if rj is not None:
+      t = unparse(rj.node).replace(' ', '')
+      loop_ok = any(isinstance(n, ast.For) and isinstance(n.iter, ast.Name) for n in ast.walk(rj.node)) and 'list(self.queue)' in t
+      if loop_ok and 'metricGenerated' in t and t.find('metricGenerated') < t.find('self.queue.clear()'):
+        r_r.ok('the no-destination buffer is re-injected from a full snapshot before it is cleared', rj.loc())
+      else:
+        r_r.violate('no-destination buffer lost', rj, None, 'FakeClientFactory.reinjectDatapoints does not re-inject a full snapshot of '
+                    'its queue before clearing it', construct='reinjectDatapoints')
+
   # ------------------------------------------------------------------ stop after empty
   r_e = check.rule('R-C07-stop-after-empty', 3, 'a destination is closed only after its queue has been transmitted')
   for f in repo.all_functions():
